@@ -274,13 +274,84 @@ theorem c07_handed_reagg (S : StrFns) (E : List Mapper) (fs : List Fld)
 
 theorem c07_reaggF_nested {S : StrFns} {L : List Mapper} {full : List Fld} {n : String} {o : Bool}
     {sh : Shape} {own : CInfo} {fs : List Fld} (h : reaggF S L full (.nested n o sh own fs) = true) :
-    (own.desL = [] ∧ own.ser = []) ∧ trackOK S L n = true ∧ noCross S L full n = true ∧ fs ≠ []
-      ∧ prefixOK S fs [] (enumsOf L) = true ∧ mkeysNodup (shapeFields S (enumsOf L) fs) = true
-      ∧ reaggFs S (enumsOf L) fs fs = true := by
-  simp only [reaggF, and_true_iff'] at h
-  obtain ⟨⟨⟨⟨⟨⟨h1, h2⟩, h3⟩, h4⟩, h5⟩, h6⟩, h7⟩ := h
-  refine ⟨by simpa using h1, h2, h3, ?_, h5, h6, h7⟩
-  intro e; subst e; simp at h4
+    trackOK S L n = true ∧ noCross S L full n = true ∧ fs ≠ [] ∧
+      (((own.desL = [] ∧ own.ser = []) ∧ prefixOK S fs [] (enumsOf L) = true
+          ∧ mkeysNodup (shapeFields S (enumsOf L) fs) = true ∧ reaggFs S (enumsOf L) fs fs = true)
+       ∨ (enumsOf L = [] ∧ own.desL.all plainMapper = true ∧ prefixOK S fs [] own.desL = true
+          ∧ selfOK S own.desL fs = true)) := by
+  simp only [reaggF, and_true_iff', Bool.or_eq_true] at h
+  obtain ⟨⟨⟨h1, h2⟩, h3⟩, h4⟩ := h
+  refine ⟨h1, h2, ?_, ?_⟩
+  · intro e; subst e; simp at h3
+  · rcases h4 with ⟨⟨⟨⟨a, b⟩, c⟩, d⟩, e⟩ | ⟨⟨⟨a, b⟩, c⟩, d⟩
+    · exact Or.inl ⟨⟨by simpa using a, by simpa using b⟩, c, d, e⟩
+    · exact Or.inr ⟨by simpa using a, b, c, d⟩
+
+/-! ### a shape list equals itself as a Python dict; applying it to itself changes nothing -/
+
+theorem c07_mvEq_flat_refl (v : MV) (h : (match v with | .sub _ => false | _ => true) = true) :
+    mvEq v v = true := by
+  cases v with
+  | key s => simp [mvEq]
+  | dns => simp [mvEq]
+  | sub q => simp at h
+
+mutual
+theorem c07_self_dSub_fs (S : StrFns) :
+    ∀ (sub full : List Fld) (L : List Mapper), (∀ f ∈ sub, f ∈ full) →
+      mkeysNodup (shapeFields S L full) = true → selfFs S L sub = true →
+      dSub (shapeFields S L sub) (shapeFields S L full) = true
+  | [], _, _, _, _, _ => by simp [shapeFields, dSub]
+  | f :: sub, full, L, hs, hn, hr => by
+    simp only [selfFs, and_true_iff'] at hr
+    simp only [shapeFields, c07_dSub_append, and_true_iff']
+    exact ⟨c07_self_dSub_f S f full L (hs f (List.mem_cons_self ..)) hn hr.1,
+      c07_self_dSub_fs S sub full L (fun g hg => hs g (List.mem_cons_of_mem _ hg)) hn hr.2⟩
+theorem c07_self_dSub_f (S : StrFns) :
+    ∀ (f : Fld) (full : List Fld) (L : List Mapper), f ∈ full →
+      mkeysNodup (shapeFields S L full) = true → selfF S L f = true →
+      dSub (shapeFld S L f) (shapeFields S L full) = true
+  | .scalar n o, full, L, hm, hn, hr => by
+    have hl := c07_lookupR_shape_fld S L full _ hn hm
+    simp only [Fld.name] at hl
+    simp only [selfF, keyFlat] at hr
+    simp [shapeFld, dSub, hl, c07_mvEq_flat_refl _ hr]
+  | .nested n o sh ci fs, full, L, hm, hn, hr => by
+    simp only [selfF, and_true_iff', keyFlat] at hr
+    obtain ⟨⟨⟨⟨hflat, hplain⟩, hpre⟩, hnod⟩, hrec⟩ := hr
+    have hl := c07_lookupR_shape_fld S L full _ hn hm
+    simp only [Fld.name] at hl
+    have hl2 := c07_lookupR_shape_nest S L full n o sh ci fs hn hm
+    have hh := c07_handed_shape S L ci.desL fs hplain hpre
+    have ih := c07_self_dSub_fs S fs fs _ (fun g hg => hg) hnod hrec
+    simp [shapeFld, dSub, hl, hl2, c07_mvEq_flat_refl _ hflat, mvEq, hh, ih]
+end
+
+/-- a dict mapper each of whose entries is found, equal, in the current aggregate leaves it as it is -/
+theorem c07_add_dict_self (S : StrFns) (b : Bool) (p : MDict) :
+    ∀ a : MDict, dSub a p = true → add S b (.dict p) a = a
+  | [], _ => by simp [add]
+  | (k, v) :: r, h => by
+    simp only [dSub, and_true_iff'] at h
+    have hhit : hit (.dict p) k v = true := by
+      simp only [hit]; exact h.1
+    have hk : addKey S b (.dict p) k v = k := by
+      unfold addKey
+      cases k with
+      | fld n => rfl
+      | nest n => cases v <;> simp [hhit]
+    have hv : addVal S b (.dict p) k v = v := by
+      cases v with
+      | key s => simp [addVal, hhit]
+      | dns => simp [addVal]
+      | sub q => simp [addVal, hhit]
+    simp only [add, hk, hv, c07_add_dict_self S b p r h.2]
+
+theorem c07_self_apply (S : StrFns) (L : List Mapper) (fs : List Fld) (h : selfOK S L fs = true) :
+    norm (add S false (.dict (shapeFields S L fs)) (shapeFields S L fs)) = shapeFields S L fs := by
+  simp only [selfOK, and_true_iff'] at h
+  rw [c07_add_dict_self S false _ _ (c07_self_dSub_fs S fs fs L (fun g hg => hg) h.1 h.2),
+    c07_norm_of_nodup _ h.1]
 
 mutual
 theorem c07_shape_eq_base_fs (S : StrFns) :
@@ -308,7 +379,15 @@ theorem c07_shape_eq_base_f (S : StrFns) :
     have := c07_mvEq_key hd.1
     simp only [shapeFld, this, hk0]
   | .nested n o sh own fs, full, E, hE, hm, hn, hr, hd => by
-    obtain ⟨⟨hd0, _⟩, _, hcross, _, hpre, hnod, hrec⟩ := c07_reaggF_nested hr
+    by_cases hE0 : E = []
+    · subst hE0; rfl
+    obtain ⟨_, hcross, _, hbr⟩ := c07_reaggF_nested hr
+    have hbr1 : (own.desL = [] ∧ own.ser = []) ∧ prefixOK S fs [] (enumsOf E) = true
+          ∧ mkeysNodup (shapeFields S (enumsOf E) fs) = true ∧ reaggFs S (enumsOf E) fs fs = true := by
+      rcases hbr with h1 | h2
+      · exact h1
+      · exact absurd (hE ▸ h2.1) hE0
+    obtain ⟨⟨hd0, _⟩, hpre, hnod, hrec⟩ := hbr1
     rw [hE] at hpre hnod hrec
     have hl := c07_lookupR_shape_fld S E full _ hn hm
     simp only [Fld.name] at hl
@@ -380,23 +459,47 @@ theorem c07_reagg_f (S : StrFns) :
     simp only [Fld.name] at hl
     simp [baseFld, shapeFld, add, addKey, addVal_fld, c07_stepKey_dict_self S _ n _ hl]
   | .nested n o sh own fs, full, L, hm, hn, hr => by
-    obtain ⟨⟨hd0, _⟩, htrack, hcross, _, hpre, hnod, hrec⟩ := c07_reaggF_nested hr
+    obtain ⟨htrack, hcross, _, hbr⟩ := c07_reaggF_nested hr
     have hl := c07_lookupR_shape_fld S L full _ hn hm
     simp only [Fld.name] at hl
     have hl2 := c07_lookupR_shape_nest S L full n o sh own fs hn hm
-    rw [hd0] at hl2
-    have hh := c07_handed_reagg S L fs hpre
     have hkey := c07_trackOK htrack
-    simp only [baseFld, shapeFld, CInfo.lst, Bool.false_eq_true, if_false, hd0, add, addVal_fld,
+    -- `A`: the nested class's own aggregate (the base entry); `H`: what the parent handed down for it
+    have hF1 : dSub (foldAdd S false own.desL (baseFields S false fs)) (handed S L own.desL fs) = true →
+        foldAdd S false own.desL (baseFields S false fs) = handed S L own.desL fs := by
+      intro hd
+      rcases hbr with ⟨⟨hd0, _⟩, hpre, hnod, hrec⟩ | ⟨hE, _, _, _⟩
+      · rw [hd0] at hd ⊢
+        have hh := c07_handed_reagg S L fs hpre
+        have hf : foldAdd S false [] (baseFields S false fs) = baseFields S false fs := by simp [foldAdd]
+        rw [hf, hh, ← c07_shapeFields_nil] at hd
+        rw [hf, hh, ← c07_shapeFields_nil]
+        exact (c07_shape_eq_base_fs S fs fs (enumsOf L) (c07_enumsOf_idem L) (fun g hg => hg) hnod hrec hd).symm
+      · simp [handed, hE, foldAdd]
+    have hF2 : norm (add S false (.dict (handed S L own.desL fs))
+        (foldAdd S false own.desL (baseFields S false fs))) = handed S L own.desL fs := by
+      rcases hbr with ⟨⟨hd0, _⟩, hpre, hnod, hrec⟩ | ⟨hE, hplain, hpre, hself⟩
+      · rw [hd0]
+        have hh := c07_handed_reagg S L fs hpre
+        have hf : foldAdd S false [] (baseFields S false fs) = baseFields S false fs := by simp [foldAdd]
+        rw [hf, hh, c07_reagg_fs S fs fs (enumsOf L) (fun g hg => hg) hnod hrec, c07_norm_of_nodup _ hnod]
+      · have hA : foldAdd S false own.desL (baseFields S false fs) = shapeFields S own.desL fs :=
+          c07_foldAdd_base S fs own.desL hplain hpre
+        have hH : handed S L own.desL fs = shapeFields S own.desL fs := by
+          unfold handed
+          rw [hE, hA]
+          simp [foldAdd]
+        rw [hA, hH]
+        exact c07_self_apply S own.desL fs hself
+    simp only [baseFld, shapeFld, CInfo.lst, Bool.false_eq_true, if_false, add, addVal_fld,
       c07_stepKey_dict_self S _ n _ hl]
-    have hf : foldAdd S false [] (baseFields S false fs) = baseFields S false fs := by simp [foldAdd]
-    rw [hf]
-    by_cases hhit : hit (.dict (shapeFields S L full)) (.nest n) (.sub (baseFields S false fs)) = true
-    · -- the handed-down entry equals the nested class's base mapper: kept as it is
-      have hk : addKey S false (.dict (shapeFields S L full)) (.nest n) (.sub (baseFields S false fs)) = .nest n := by
+    generalize foldAdd S false own.desL (baseFields S false fs) = A at *
+    generalize handed S L own.desL fs = H at *
+    by_cases hhit : hit (.dict (shapeFields S L full)) (.nest n) (.sub A) = true
+    · -- the handed-down entry equals the nested class's own aggregate: kept as it is
+      have hk : addKey S false (.dict (shapeFields S L full)) (.nest n) (.sub A) = .nest n := by
         simp [addKey, hhit]
-      have hv : addVal S false (.dict (shapeFields S L full)) (.nest n) (.sub (baseFields S false fs))
-          = .sub (baseFields S false fs) := by
+      have hv : addVal S false (.dict (shapeFields S L full)) (.nest n) (.sub A) = .sub A := by
         simp [addVal, hhit]
       rw [hk, hv]
       simp only [hit] at hhit
@@ -411,24 +514,19 @@ theorem c07_reagg_f (S : StrFns) :
         injection hl2 with hl2
         subst hl2
         simp only [mvEq, and_true_iff'] at hhit
-        rw [hh, ← c07_shapeFields_nil] at hhit
-        have e4 := c07_shape_eq_base_fs S fs fs (enumsOf L) (c07_enumsOf_idem L) (fun g hg => hg) hnod
-          hrec hhit.2
-        rw [hnk, hh, e4, c07_shapeFields_nil]
+        rw [hnk, hF1 hhit.2]
         simp [addKey]
-    · have hhit' : hit (.dict (shapeFields S L full)) (.nest n) (.sub (baseFields S false fs)) = false := by
+    · have hhit' : hit (.dict (shapeFields S L full)) (.nest n) (.sub A) = false := by
         simpa using hhit
       have hap : applyKey S (.dict (shapeFields S L full)) n = .key (nk S L n) := by
         simp [applyKey, hl, hkey]
-      have hk : addKey S false (.dict (shapeFields S L full)) (.nest n) (.sub (baseFields S false fs))
-          = .nest (nk S L n) := by
+      have hk : addKey S false (.dict (shapeFields S L full)) (.nest n) (.sub A) = .nest (nk S L n) := by
         simp [addKey, hhit', newNest, hap, nestName]
-      have hsub : subOf (.dict (shapeFields S L full)) (nk S L n) n = some (.dict (handed S L [] fs)) := by
+      have hsub : subOf (.dict (shapeFields S L full)) (nk S L n) n = some (.dict H) := by
         simp [subOf, hl2]
-      have hv : addVal S false (.dict (shapeFields S L full)) (.nest n) (.sub (baseFields S false fs))
-          = .sub (handed S L [] fs) := by
+      have hv : addVal S false (.dict (shapeFields S L full)) (.nest n) (.sub A) = .sub H := by
         simp only [addVal, hhit', Bool.false_eq_true, if_false, newNest, hap, nestName, hsub, subResult]
-        rw [hh, c07_reagg_fs S fs fs (enumsOf L) (fun g hg => hg) hnod hrec, c07_norm_of_nodup _ hnod]
+        rw [hF2]
       rw [hk, hv]
       simp [addKey]
 end
